@@ -135,6 +135,28 @@ def compute_refactoring(project, st):
             if not isinstance(mover, move.MoveGlobal):
                 return None
             return mover.get_changes(dest)
+        if st["kind"] == "organize":
+            from rope.refactor.importutils import ImportOrganizer
+
+            if res.is_folder():
+                return None
+            return getattr(ImportOrganizer(project), st.get("action", "organize_imports"))(res)
+        if st["kind"] in ("extract_variable", "extract_method"):
+            from rope.refactor import extract
+
+            text = res.read()
+            at = text.find(st["fragment"])
+            if at < 0:
+                return None
+            cls = extract.ExtractVariable if st["kind"] == "extract_variable" else extract.ExtractMethod
+            return cls(project, res, at, at + len(st["fragment"])).get_changes(st["new"])
+        if st["kind"] == "inline":
+            from rope.refactor import inline
+
+            offs = find_ident_offsets(res.read(), st["ident"])
+            if not offs:
+                return None
+            return inline.create_inline(project, res, offs[st.get("occ", 0) % len(offs)]).get_changes()
         if st["kind"] == "to_package":
             from rope.refactor import topackage
 
